@@ -40,10 +40,15 @@ fail is the source line):
     ('pctor', [path segs], [patterns])   Some(x) / Ok(()) / Err(e) / Enum::Variant(x)
     ('ppath', [path segs])               None / Enum::Variant
     ('pstruct', [path segs], [(field, pattern)], has_rest)
+    ('pslice', [patterns before], rest_name|None|False, [patterns after])     [a, b, rest @ .., z]  (rest False = no `..`)
+    ('por', [patterns])
   additional expressions (felt-sx executor only)
     ('while', cond, block, line)  ('iflet', pattern, expr, then_block, else_block|None, line)
     ('closure', [patterns], body_expr, line)  ('array', [items], line)  ('repeat', item, count, line)
-    ('continue', line)
+    ('continue', line)   ('letelse', pattern, init, else_block, line)   ('whilelet', pattern, expr, block, line)
+    ('matches', expr, pattern, guard|None, line)
+    labels: loop / while / for / whilelet nodes and break / continue nodes carry `.label` (N attribute) when written with one;
+    match arms are (pattern, body) or (pattern, body, guard)
   cfg predicates: ('feature', name) ('any', [..]) ('all', [..]) ('not', p) ('flag', name)
 """
 import re
@@ -60,6 +65,7 @@ class N(tuple):
     semi = True
     ty = None
     turbofish = None
+    label = None
 
 
 class Unsupported(Exception):
@@ -563,7 +569,7 @@ class Parser:
                 self.skip_item()
                 continue
             sline = self.t.line
-            if (self.t.kind == "id" and self.t.val in self.BLOCKLIKE) or self.at_op("{"):
+            if (self.t.kind == "id" and self.t.val in self.BLOCKLIKE) or self.at_op("{") or (self.t.kind == "life" and self.peek().kind == "op" and self.peek().val == ":"):
                 # block-like expression in statement position: it ends the statement (no postfix / binary continuation)
                 e = self.primary(False)
                 if self.at_op("}") and cfg is None:
@@ -613,6 +619,13 @@ class Parser:
         init = None
         if self.eat("="):
             init = self.expr()
+        if self.at_id("else") and init is not None:
+            self.i += 1
+            blk = self.block()
+            self.expect(";")
+            n = N(("expr", ("letelse", pat, init, blk, line), line))
+            n.ty = ty
+            return n
         self.expect(";")
         n = N(("let", pat, mutable, init, line))
         n.ty = ty
@@ -628,6 +641,22 @@ class Parser:
                     break
             self.expect(")")
             return ("ptuple", ps)
+        if self.at_op("["):
+            self.i += 1
+            before, after, rest = [], [], False
+            while not self.at_op("]"):
+                if self.at_op(".."):
+                    self.i += 1
+                    rest = None
+                elif self.t.kind == "id" and self.peek().kind == "op" and self.peek().val == "@" and self.peek(2).kind == "op" and self.peek(2).val == "..":
+                    rest = self.ident()
+                    self.i += 2
+                else:
+                    (before if rest is False else after).append(self.pattern())
+                if not self.eat(","):
+                    break
+            self.expect("]")
+            return ("pslice", before, rest, after)
         if self.at_op("&"):
             self.i += 1
             self.eat("mut")
@@ -638,6 +667,10 @@ class Parser:
         if self.t.kind == "num":
             v = self.t.val
             self.i += 1
+            if self.at_op("..=") and self.peek().kind == "num":
+                hi = self.peek().val
+                self.i += 2
+                return ("prange", v, hi)
             return ("pint", v)
         if self.at_id("_"):
             self.i += 1
@@ -649,6 +682,10 @@ class Parser:
             self.i += 1
             self.eat("mut")
             return self.pattern()
+        if self.t.kind == "id" and self.t.val in ("true", "false"):
+            v = self.t.val == "true"
+            self.i += 1
+            return ("pbool", v)
         if self.t.kind == "id":
             segs = [self.ident()]
             while self.at_op("::"):
@@ -657,6 +694,9 @@ class Parser:
                     self.skip_generics()
                     continue
                 segs.append(self.ident())
+            if len(segs) == 1 and self.at_op("@"):
+                self.i += 1
+                return ("pbind", segs[0], self.pattern())
             if self.at_op("("):
                 self.i += 1
                 ps = []
@@ -839,6 +879,14 @@ class Parser:
             return ("tuple", items, line)
         if t.kind == "op" and t.val == "{":
             return self.block()
+        if t.kind == "life" and self.peek().kind == "op" and self.peek().val == ":":
+            label = t.val
+            self.i += 2
+            if not (self.t.kind == "id" and self.t.val in ("loop", "while", "for")):
+                self.fail("label on a non-loop expression")
+            e = N(self.primary(no_struct))
+            e.label = label
+            return e
         if t.kind == "op" and t.val == "[":
             self.i += 1
             items = []
@@ -880,11 +928,13 @@ class Parser:
                     while self.eat("|"):
                         alts.append(self.pattern())
                     pat = ("por", alts)
+                guard = None
                 if self.at_id("if"):
-                    self.fail("match guards are not supported")
+                    self.i += 1
+                    guard = self.expr(no_struct=True)
                 self.expect("=>")
                 body = self.expr()
-                arms.append((pat, body))
+                arms.append((pat, body) if guard is None else (pat, body, guard))
                 if not self.eat(","):
                     if not self.at_op("}") and body[0] != "block":
                         self.fail("expected ',' between match arms")
@@ -902,17 +952,33 @@ class Parser:
         if t.val == "while":
             self.i += 1
             if self.at_id("let"):
-                self.fail("`while let` is not in the subset")
+                self.i += 1
+                pat = self.pattern()
+                self.expect("=")
+                scrut = self.expr(no_struct=True)
+                return ("whilelet", pat, scrut, self.block(), line)
             cond = self.expr(no_struct=True)
             return ("while", cond, self.block(), line)
         if t.val == "continue":
             self.i += 1
+            if self.t.kind == "life":
+                n = N(("continue", line))
+                n.label = self.t.val
+                self.i += 1
+                return n
             return ("continue", line)
         if t.val == "break":
             self.i += 1
+            label = None
+            if self.t.kind == "life":
+                label = self.t.val
+                self.i += 1
             if self.at_op(";") or self.at_op("}") or self.at_op(","):
-                return ("break", None, line)
-            return ("break", self.expr(), line)
+                n = N(("break", None, line))
+            else:
+                n = N(("break", self.expr(), line))
+            n.label = label
+            return n
         if t.val == "return":
             self.i += 1
             if self.at_op(";") or self.at_op("}") or self.at_op(","):
@@ -942,6 +1008,23 @@ class Parser:
                     n.ty = msg.val if msg.kind == "str" else None       # first string literal = message format
                     return n
                 self.i += 1
+                if name == "matches":
+                    e0 = self.expr()
+                    self.expect(",")
+                    self.eat("|")
+                    pat = self.pattern()
+                    if self.at_op("|"):
+                        alts = [pat]
+                        while self.eat("|"):
+                            alts.append(self.pattern())
+                        pat = ("por", alts)
+                    guard = None
+                    if self.at_id("if"):
+                        self.i += 1
+                        guard = self.expr()
+                    self.eat(",")
+                    self.expect(close)
+                    return ("matches", e0, pat, guard, line)
                 args = []
                 while not self.at_op(close):
                     args.append(self.expr())
